@@ -196,7 +196,7 @@ def main(chk, tier, seed):
     chk.rule = RULE
     chk.assumptions = ["oracle = harness table / harness-side arithmetic of the same expression",
                        "per-process consistency is what is required under each hash seed"]
-    n = 1040 if tier == "quick" else 13000
+    n = 1040 if tier == "quick" else 52000
     jobs = []
     per = 4 if tier == "quick" else 13
     chunk = (n + per - 1) // per
